@@ -219,7 +219,7 @@ def run(ctx):
         nfile += 1
         i = batch[0]
         t = present(data[i], 'default', rng_, DEFAULT_SETS[0])
-        missing = rng_.choice(['molar enthalpy', 'molar entropy', 'temperature'])
+        missing = ['temperature', 'molar enthalpy', 'molar entropy'][(k0 // 8) % 3]
         units = {k: v for k, v in DEFAULT_SETS[0].items() if k != missing}
         if missing == 'molar enthalpy':
             t['H_ref'] = 1.5
